@@ -312,7 +312,7 @@ def main(ctx, replay):
     rng = random.Random(ctx.seed)
     info = C.prologue(ctx)
     if info["hbin"] is None:
-        raise RuntimeError("harness build failed:\n" + info.get("go_log", ""))
+        raise C.HarnessBuildFailed(info.get("go_log", ""))
     H = info["hbin"]
     C.add_property_files(info, ["C06loop"])      # the micro-batch over the queue (Model/PushLoop.v)
     cov = C.proof_coverage(info, "C06")
